@@ -567,3 +567,45 @@ let () = serde_hook := (fun _ a ->
             | A "deerr" :: _ -> Some "impl cannot deserialise its own output"
             | _ -> None))
   | _ -> None)
+
+(* ------------------------------------------------------------------ in-kernel cross-check (cases.v)
+   A sample of the replayed calls is also printed as Coq terms; `coqc` evaluates the same
+   model functions with vm_compute inside the kernel, cross-checking the extraction. *)
+let coq_n x = string_of_int (int_of_n x)
+let coq_vc c = "(vc_of_list [" ^ String.concat "; " (List.map (fun (a, n) -> "(" ^ coq_n a ^ ", " ^ coq_n n ^ ")") (vc_to_list c)) ^ "])"
+let coq_nlist l = "[" ^ String.concat "; " (List.map coq_n l) ^ "]"
+let coq_dot d = "(Dot " ^ coq_n d.dactor ^ " " ^ coq_n d.dcounter ^ ")"
+let coq_orswot s =
+  "(Orswot " ^ coq_vc s.oclock ^ " (nmap_of_list [" ^
+  String.concat "; " (List.map (fun (m, c) -> "(" ^ coq_n m ^ ", " ^ coq_vc c ^ ")") (nmap_to_list s.oentries)) ^ "]) (cmap_of_list [" ^
+  String.concat "; " (List.map (fun (c, ms) -> "(" ^ coq_vc c ^ ", nset_of_list " ^ coq_nlist (nset_to_list ms) ^ ")") (cmap_to_list s.odeferred)) ^ "]))"
+let coq_oop = function
+  | OAdd (d, ms) -> "(OAdd " ^ coq_dot d ^ " " ^ coq_nlist ms ^ ")"
+  | ORm (c, ms) -> "(ORm " ^ coq_vc c ^ " " ^ coq_nlist ms ^ ")"
+let coq_mv s = "[" ^ String.concat "; " (List.map (fun (c, v) -> "(" ^ coq_vc c ^ ", " ^ coq_n v ^ ")") s) ^ "]"
+let coq_case (f : string) (a : sx list) : string option =
+  try
+    (match f, a with
+     | "vclock.merge", [c; o; r] -> Some ("vc_eqb (vmerge " ^ coq_vc (vc_sx c) ^ " " ^ coq_vc (vc_sx o) ^ ") " ^ coq_vc (vc_sx r))
+     | "vclock.reset", [c; o; r] -> Some ("vc_eqb (vreset " ^ coq_vc (vc_sx c) ^ " " ^ coq_vc (vc_sx o) ^ ") " ^ coq_vc (vc_sx r))
+     | "vclock.glb", [c; o; r] -> Some ("vc_eqb (vglb " ^ coq_vc (vc_sx c) ^ " " ^ coq_vc (vc_sx o) ^ ") " ^ coq_vc (vc_sx r))
+     | "vclock.intersection", [c; o; r] -> Some ("vc_eqb (vintersection " ^ coq_vc (vc_sx c) ^ " " ^ coq_vc (vc_sx o) ^ ") " ^ coq_vc (vc_sx r))
+     | "vclock.apply", [c; d; r] -> Some ("vc_eqb (vapply " ^ coq_vc (vc_sx c) ^ " " ^ coq_dot (dot_sx d) ^ ") " ^ coq_vc (vc_sx r))
+     | "gcounter.merge", [c; o; r] -> Some ("vc_eqb (vmerge " ^ coq_vc (vc_sx c) ^ " " ^ coq_vc (vc_sx o) ^ ") " ^ coq_vc (vc_sx r))
+     | "gcounter.apply", [c; d; r] -> Some ("vc_eqb (vapply " ^ coq_vc (vc_sx c) ^ " " ^ coq_dot (dot_sx d) ^ ") " ^ coq_vc (vc_sx r))
+     | "vclock.clone_without", [c; o; r] -> Some ("vc_eqb (vclone_without " ^ coq_vc (vc_sx c) ^ " " ^ coq_vc (vc_sx o) ^ ") " ^ coq_vc (vc_sx r))
+     | "vclock.cmp", [c; o; r] ->
+         let rs = (match ord_sx r with None -> "None" | Some Lt -> "(Some Lt)" | Some Eq -> "(Some Eq)" | Some Gt -> "(Some Gt)") in
+         Some ("bool_decide (vcmp " ^ coq_vc (vc_sx c) ^ " " ^ coq_vc (vc_sx o) ^ " = " ^ rs ^ ")")
+     | "vclock.concurrent", [c; o; r] -> Some ("Bool.eqb (vconcurrent " ^ coq_vc (vc_sx c) ^ " " ^ coq_vc (vc_sx o) ^ ") " ^ string_of_bool (bool_sx r))
+     | "gset.apply", [s; x; r] -> Some ("nset_eqb (gs_apply (nset_of_list " ^ coq_nlist (nset_to_list (nset_sx s)) ^ ") " ^ coq_n (n_sx x) ^ ") (nset_of_list " ^ coq_nlist (nset_to_list (nset_sx r)) ^ ")")
+     | "gset.merge", [s; o; r] -> Some ("nset_eqb (gs_merge (nset_of_list " ^ coq_nlist (nset_to_list (nset_sx s)) ^ ") (nset_of_list " ^ coq_nlist (nset_to_list (nset_sx o)) ^ ")) (nset_of_list " ^ coq_nlist (nset_to_list (nset_sx r)) ^ ")")
+     | "orswot.validate_merge", [s; o; r] -> Some ("Bool.eqb (ovalidate_merge " ^ coq_orswot (orswot_sx s) ^ " " ^ coq_orswot (orswot_sx o) ^ ") " ^ string_of_bool (okerr r))
+     | "mvreg.reset", [s; c; r] -> Some ("mv_eqb (mvreset " ^ coq_mv (mv_sx s) ^ " " ^ coq_vc (vc_sx c) ^ ") " ^ coq_mv (mv_sx r))
+     | "orswot.apply", [s; o; r] -> Some ("orswot_eqb (oapply " ^ coq_orswot (orswot_sx s) ^ " " ^ coq_oop (oop_sx o) ^ ") " ^ coq_orswot (orswot_sx r))
+     | "orswot.merge", [s; o; r] -> Some ("orswot_eqb (omerge " ^ coq_orswot (orswot_sx s) ^ " " ^ coq_orswot (orswot_sx o) ^ ") " ^ coq_orswot (orswot_sx r))
+     | "orswot.reset", [s; c; r] -> Some ("orswot_eqb (oreset " ^ coq_orswot (orswot_sx s) ^ " " ^ coq_vc (vc_sx c) ^ ") " ^ coq_orswot (orswot_sx r))
+     | "mvreg.apply", [s; o; r] -> (match mvop_sx o with MVPut (c, v) -> Some ("mv_eqb (mvapply " ^ coq_mv (mv_sx s) ^ " (MVPut " ^ coq_vc c ^ " " ^ coq_n v ^ ")) " ^ coq_mv (mv_sx r)))
+     | "mvreg.merge", [s; o; r] -> Some ("mv_eqb (mvmerge " ^ coq_mv (mv_sx s) ^ " " ^ coq_mv (mv_sx o) ^ ") " ^ coq_mv (mv_sx r))
+     | _ -> None)
+  with Bad _ -> None
